@@ -155,6 +155,16 @@ CHECKS = {
              "modes and operand orders and compared with the operator form; inputs must be unchanged after non in-place calls; names without a recipe are listed in evidence.",
         note="23 known-finding classes with two root causes: (1) mod/remainder/fmod/floor_divide do not convert their operands (pinned by the existing test-suite), (2) the ufunc implementations bypass the offset-unit rules. Functions without a recipe are reported, not claimed.",
         design="5/C16"),
+    "C17": dict(
+        technique="Hypothesis-generated signatures, unit specifications, call shapes and arguments for ureg.wraps / ureg.check, checked against an independent re-implementation of the documented contract with exact factors from an independent definition reader; enumeration of decoration-time errors",
+        text="Random signatures (1-5 positional-or-keyword parameters, a suffix of defaults) receive per parameter a unit string, Unit object, None, an '=A' "
+             "definition or a reference ('=A', '=A*B', '=A**2', '=A/B'); arguments are quantities in other compatible units, incompatible units, bare numbers or "
+             "strings, passed positionally, by keyword in any order, or left to their default; strict on/off; ret None, unit, reference, tuple or list. A recorder "
+             "function must see exactly the expected Fractions (None slots: the identical object), the return value must carry the declared or derived units, "
+             "errors must be DimensionalityError / ValueError as documented. ureg.check is exercised the same way (dimension strings, units, containers, None). "
+             "Count mismatches and wrong specification types must be rejected at decoration time (enumerated).",
+        note="Keyword-only/variadic parameters are outside the documented contract. An undefined reference in a wraps specification is only detected at call time (observation; the statement promises decoration-time rejection for count mismatches only).",
+        design="5/C17"),
     "C20": dict(
         technique="complete enumeration of an independently curated table of ~260 standard values x spellings x {Fraction, float} registries (differential oracle: the table)",
         text="Each entry of data/standards.txt (SI and binary prefixes, SI units, defining constants, yard/pound multiples, US/imperial capacity, avoirdupois/"
